@@ -7,7 +7,7 @@ of integer variables and constraints to boolean satisfiability clauses.
 Not part of the public API - use Model from cp.py instead.
 """
 
-from itertools import combinations
+from itertools import combinations, product
 from typing import TYPE_CHECKING, Any
 
 from solvor.sat import Status as SATStatus
@@ -385,36 +385,31 @@ class SATEncoder:
         max_end = max(s.ub + d for s, d in zip(starts, durations))
 
         for t in range(min_start, max_end):
-            active_lits = []
-            active_demands = []
+            # Per task: the start literals that make it run at time t (at most one of them is true)
+            task_lits = []
+            task_demands = []
             for i in range(n):
-                for s in range(max(starts[i].lb, t - durations[i] + 1), min(starts[i].ub, t) + 1):
-                    if s in starts[i].bool_vars and s <= t < s + durations[i]:
-                        active_lits.append(starts[i].bool_vars[s])
-                        active_demands.append(demands[i])
+                lits = [
+                    starts[i].bool_vars[s]
+                    for s in range(max(starts[i].lb, t - durations[i] + 1), min(starts[i].ub, t) + 1)
+                    if s in starts[i].bool_vars
+                ]
+                if lits:
+                    task_lits.append(lits)
+                    task_demands.append(demands[i])
 
-            if not active_lits:
-                continue
+            for subset in self._minimal_overloads(task_demands, capacity):
+                for choice in product(*(task_lits[i] for i in subset)):
+                    self._clauses.append([-lit for lit in choice])
 
-            if len(active_lits) <= 10:
-                self._encode_capacity_constraint(active_lits, active_demands, capacity)
-
-    def _encode_capacity_constraint(self, lits: list[int], demands: list[int], capacity: int) -> None:
-        """Encode sum constraint: if all lits true, demands sum must <= capacity."""
-        n = len(lits)
+    def _minimal_overloads(self, demands: list[int], capacity: int):
+        """Yield the minimal sets of task indices whose total demand exceeds capacity."""
+        n = len(demands)
         for size in range(1, n + 1):
             for subset in combinations(range(n), size):
-                if sum(demands[i] for i in subset) > capacity:
-                    is_minimal = True
-                    for smaller_size in range(1, size):
-                        for smaller in combinations(subset, smaller_size):
-                            if sum(demands[i] for i in smaller) > capacity:
-                                is_minimal = False
-                                break
-                        if not is_minimal:
-                            break
-                    if is_minimal:
-                        self._clauses.append([-lits[i] for i in subset])
+                total = sum(demands[i] for i in subset)
+                if total > capacity and all(total - demands[i] <= capacity for i in subset):
+                    yield subset
 
     # Constraint dispatcher
 
